@@ -113,7 +113,7 @@ def Dev.notify (d : Dev) (i : Nat) : Option Pkt :=
 inductive Api
   | setValue (cn : List Nat) (v : PyVal) (inCb : Bool)
   | getValue (cn : List Nat) (inCb : Bool)
-  | requestUpdate (cn : List Nat) (proto4 : Bool)
+  | requestUpdate (cn : List Nat)
   | getDefault (cn : List Nat) (rid : Nat)
   | getState (cn : List Nat) (rid : Nat)
   | store (cn : List Nat) (rid : Option Nat)
@@ -123,10 +123,10 @@ inductive Api
   deriving DecidableEq, Repr
 
 /-- execute one API call on the host -/
-def Api.run (S2F : List Char → Except PyErr Nat) (v : Variant) (h : Host) : Api → Host × List Out
+def Api.run (S2F : List Char → Except PyErr Nat) (v : Variant) (proto4 : Bool) (h : Host) : Api → Host × List Out
   | .setValue cn x c => _root_.CfVerif.C04.setValue S2F h cn x c
   | .getValue cn c => _root_.CfVerif.C04.getValue h cn c
-  | .requestUpdate cn p => _root_.CfVerif.C04.requestUpdate h cn p
+  | .requestUpdate cn => _root_.CfVerif.C04.requestUpdate h cn proto4
   | .getDefault cn r => _root_.CfVerif.C04.getDefault v h cn r
   | .getState cn r => _root_.CfVerif.C04.getState v h cn r
   | .store cn r => _root_.CfVerif.C04.store v h cn r
@@ -151,7 +151,7 @@ inductive Ev
 /-- `none`: the event is not enabled in this state -/
 def Sys.step (S2F : List Char → Except PyErr Nat) (v : Variant) (s : Sys) : Ev → Option (Sys × List Out)
   | .api _ c =>
-    let (h, o) := c.run S2F v s.host
+    let (h, o) := c.run S2F v s.dev.v2 s.host
     some ({ s with host := h }, o)
   | .updGet => (updGet s.host).map fun h => ({ s with host := h }, [])
   | .updSend =>
@@ -186,6 +186,31 @@ def Sys.run (S2F : List Char → Except PyErr Nat) (v : Variant) : Sys → List 
 
 /-! ### vocabulary of the property -/
 
+/-- the unsolicited `MISC_VALUE_UPDATED` notifications (`01 id16 value` on the misc channel); every other packet the
+device sends on the PARAM port is the reply to a request -/
+def isNotif (p : Pkt) : Bool := p.chan == 3 && p.data.head? == some 1 && decide (3 ≤ p.data.length)
+
+/-- the replies among a list of device -> host packets -/
+def solicited (l : List Pkt) : List Pkt := l.filter (fun p => !isNotif p)
+
+/-- projections of the outputs of a run -/
+def enqsOf (outs : List Out) : List (Pkt × Option Pending) :=
+  outs.filterMap fun | .enq p e => some (p, e) | _ => none
+def txsOf (outs : List Out) : List Pkt := outs.filterMap fun | .tx p => some p | _ => none
+def rxdsOf (outs : List Out) : List Pkt := outs.filterMap fun | .rxd p => some p | _ => none
+def miscCallsOf (outs : List Out) : List Out := outs.filter fun | .misc .. => true | _ => false
+def updatesOf (outs : List Out) : List Out := outs.filter fun | .update .. => true | _ => false
+
+/-- transmissions and lock releases, in order -/
+inductive Obs
+  | tx (p : Pkt)
+  | rel (p : Pkt)
+  deriving DecidableEq, Repr
+
+def obsOf (outs : List Out) : List Obs :=
+  outs.filterMap fun | .tx p => some (.tx p) | .released p => some (.rel p) | _ => none
+
+
 /-- two's-complement little-endian bytes of `v` in `k` bytes (the wire form of an integer parameter) -/
 def encodeInt (k : Nat) (v : Int) : List UInt8 := leBytes k (v % (256 ^ k : Nat)).toNat
 
@@ -196,5 +221,42 @@ def Answers (v2 : Bool) (rq rep : Pkt) : Bool :=
     (if rq.chan == 3 then rep.data.take 3 == rq.data.take 3 && rq.data.length ≥ 3
      else if v2 then rep.data.take 2 == rq.data.take 2 && rq.data.length ≥ 2
      else rep.data.take 1 == rq.data.take 1 && rq.data.length ≥ 1)
+
+/-- "one at a time, each answered before the next is sent": a transmission only when nothing is outstanding, a release
+only by a packet that answers the outstanding request.  State: the outstanding request. -/
+def altStep (v2 : Bool) : Option Pkt → Obs → Option (Option Pkt)
+  | none, .tx p => some (some p)
+  | some r, .rel p => if Answers v2 r p then some none else none
+  | _, _ => none
+
+def altRun (v2 : Bool) : Option Pkt → List Obs → Option (Option Pkt)
+  | st, [] => some st
+  | st, o :: os => match altStep v2 st o with
+    | none => none
+    | some st' => altRun v2 st' os
+
+/-- the k-th delivered reply answers the k-th transmitted request -/
+def answersZip (v2 : Bool) : List Pkt → List Pkt → Bool
+  | _, [] => true
+  | [], _ :: _ => false
+  | q :: qs, r :: rs => Answers v2 q r && answersZip v2 qs rs
+
+/-- what must reach the callers of misc requests: the handler registered with the k-th issued request runs on the k-th
+delivered reply (and on nothing else) -/
+def expectedMisc : List (Pkt × Option Pending) → List Pkt → List Out
+  | (_, some e) :: qs, r :: rs => miscCallsOf (handleMisc e r).1 ++ expectedMisc qs rs
+  | (_, none) :: qs, _ :: rs => expectedMisc qs rs
+  | _, _ => []
+
+/-- nothing queued, nothing outstanding, nothing in flight but notifications; host and device agree on the protocol -/
+structure Sys.Idle (s : Sys) : Prop where
+  queue : s.host.queue = []
+  cur : s.host.cur = none
+  lock : s.host.lockHeld = false
+  pattern : s.host.pattern = none
+  pending : s.host.pending = []
+  down : solicited s.down = []
+  useV2 : s.host.useV2 = s.dev.v2
+  updV2 : s.host.updV2 = s.dev.v2
 
 end CfVerif.C04
